@@ -884,6 +884,12 @@ int32 parseClientKeyExchange(ssl_t *ssl, int32 hsLen, unsigned char **cp,
             }
             c += pubKeyLen;
             /* This is the DH pub key now */
+            if (end - c < 2)
+            {
+                ssl->err = SSL_ALERT_DECODE_ERROR;
+                psTraceErrr("Invalid ClientKeyExchange length\n");
+                return MATRIXSSL_ERROR;
+            }
             pubKeyLen = *c << 8; c++;
             pubKeyLen += *c; c++;
             if ((uint32) (end - c) < pubKeyLen)
